@@ -27,6 +27,9 @@ def choose_op(rng, run, nodes, st, opts):
     collects = [i for i, n in enumerate(nodes) if n["kind"] == "collect"]
     r = rng.random()
     pend = sorted(run.pending) if run is not None else []
+    pre = [t for t in pend if t in getattr(run, "prefailed", ())]
+    if pre:
+        return {"op": "sinkfail", "tok": pre[0]}     # a consumer that failed at once: the model's sinkFail right after the emit
     if pend and r < opts.get("p_done", 0.3):
         if rng.random() < opts.get("p_sinkfail", 0.0):
             return {"op": "sinkfail", "tok": rng.choice(pend)}
@@ -86,7 +89,8 @@ def run_adaptive(nodes, mode, rng, n_ops, pre_ops=(), opts=None, flavour="future
                 if k < n_ops:
                     op = choose_op(rng, run, nodes, st, opts)
                 else:
-                    op = {"op": "sinkdone", "tok": sorted(run.pending)[0]}
+                    t0 = sorted(run.pending)[0]
+                    op = {"op": "sinkfail" if t0 in run.prefailed else "sinkdone", "tok": t0}
                 k += 1
                 case["ops"].append(op)
                 err = run.do_sync(op)
@@ -214,6 +218,8 @@ def compare(case, obs, manswers, aspects=ALL_ASPECTS):
         if "starts" in aspects and istarts != mstarts:
             return "op %d %r: consumer starts differ: implementation %r, model %r" % (k, op, istarts, mstarts)
         if case["mode"] == "async":
+            for t in o.get("prefailed", []):
+                tok_state.setdefault(t, "failed")       # a consumer that failed at once: its awaitable is already failed
             if op["op"] == "emit":
                 emit_toks.append(None if merr else (list(ma.get("toks", [])), ma.get("carried")))
             elif op["op"] == "sinkdone":
@@ -294,6 +300,7 @@ def oracle(case, obs, check=("sem", "md", "edges", "refs", "early", "emitwait", 
             exp_queue = {}      # node -> expected outputs not yet seen
             bad = None
             if op["op"] == "flush":
+                flush_snapshot = list(orc[op["node"]].cache)
                 exp_queue[op["node"]] = list(orc[op["node"]].feed(("flush",)))
             last_arrive = None
             for ei, e in enumerate(log):
@@ -333,6 +340,10 @@ def oracle(case, obs, check=("sem", "md", "edges", "refs", "early", "emitwait", 
                         break
                     want = q.pop(0)
                     if want[0] != v:
+                        if "md" in check and list(tags) and list(want[1]) == list(tags):
+                            problems.append(("metadata:" + nodes[n]["kind"],
+                                             "op %d: node %d (%s) emitted %r carrying the metadata %r of a different output (%r)"
+                                             % (k, n, nodes[n]["kind"], v, tags, want[0])))
                         bad = ("node %d (%s) emitted %r, its documented meaning gives %r" % (n, nodes[n]["kind"], v, want[0]), n)
                         break
                     if "md" in check and list(want[1]) != list(tags):
@@ -436,8 +447,29 @@ def oracle(case, obs, check=("sem", "md", "edges", "refs", "early", "emitwait", 
         if problems:
             return problems
         if err and stop_on_error:
+            if op["op"] == "flush" and "sem" in check and not edited and flush_recoverable(nodes, dn, op["node"]):
+                # collect.flush() clears its caches only after the emission: a consumer raising during the flush leaves
+                # both caches intact, and nothing between the collector and the consumer keeps half-updated state
+                orc[op["node"]].cache = flush_snapshot
+                continue
             return problems
     return problems
+
+
+SAFE_BELOW_FLUSH = ("map", "starmap", "filter", "flatten", "pluck", "sink", "accumulate", "unique", "union")
+
+
+def flush_recoverable(nodes, dn, c):
+    todo, seen = list(dn[c]), set()
+    while todo:
+        x = todo.pop()
+        if x in seen:
+            continue
+        seen.add(x)
+        if nodes[x]["kind"] not in SAFE_BELOW_FLUSH:
+            return False
+        todo += dn[x]
+    return True
 
 
 LINEAR_KINDS = ("map", "starmap", "filter", "pluck", "unique", "accumulate", "slice", "flatten", "zip", "partition",
